@@ -255,6 +255,11 @@ func TestVerif_C10(t *testing.T) {
 				ops = append(ops, vfSOp{Op: "attr", Path: tgt, Name: n, Value: v})
 			}
 		}
+		// same-size overwrites of attributes that exist when the session starts (k00 is an
+		// int64, k02 a float32 in the library-written bases), also after an earlier message
+		// of the header has been deleted or resized in the same session
+		ops = append(ops, vfSOp{Op: "attr", Path: tgt, Name: "k00", Value: "i64b"}, vfSOp{Op: "attr", Path: tgt, Name: "k02", Value: "f32b"},
+			vfSOp{Op: "delattr", Path: tgt, Name: "k01"})
 		ops = append(ops, vfSOp{Op: "delattr", Path: tgt, Name: "k00"}, vfSOp{Op: "delattr", Path: tgt, Name: "absent"},
 			vfSOp{Op: "write", Path: tgt, Pat: 5}, vfSOp{Op: "mkds", Path: "/newds"}, vfSOp{Op: "mkgroup", Path: "/newgrp"})
 		if len(base.ds) > 1 {
